@@ -9,10 +9,15 @@ STRS = ["", "a", "b", "ab", "A", "é", "日本", "x y", "abc", "Zz", "shared", "
 ASCII_ONLY = False      # set by a generator whose history switches the database to US-ASCII: only representable text is stored
 
 
+REP = None               # or a function char -> char mapping generated text into the repertoire of a single-byte page
+
+
 def _rep(s):
     """keep a generated string inside the repertoire of the code page the history will use"""
     if ASCII_ONLY and isinstance(s, str):
         return "".join(ch if ord(ch) < 128 else "e" for ch in s)
+    if REP and isinstance(s, str):
+        return "".join(REP(ch) for ch in s)
     return s
 
 
